@@ -94,12 +94,38 @@ pub fn blobs(ctx: &Ctx) {
     let len = ctx.pick("len", 1024);
     let pad4 = 15 * ctx.pick("pad60", 17);
     let p = Program { guid: "g".into(), ops: vec![Op::Blob(pattern(1, 4 * pad4)), Op::Blob(pattern(len as u64, len)), Op::Image(image(3, true, len, 5))], ..Default::default() };
-    run(ctx, &p);
+    // the payload sources deliver their data in full, in halves or alternating (rotated)
+    let chunk = [crate::dev::Chunk::Full, crate::dev::Chunk::AlwaysHalf, crate::dev::Chunk::Alternate][(len + pad4) % 3];
+    ctx.describe(|| format!("{} [payload sources read with {chunk:?}]", describe(&p)));
+    if let Some(w) = write_valid_opts(ctx, &p, P, &ExecOpts { src_chunk: chunk, ctx: None }) {
+        if spec_check(ctx, &p, &w) {
+            ctx.nontrivial();
+        }
+    }
+}
+
+/// long payloads (multi-page, around powers of two up to 1 MiB) from short-read sources
+pub fn long_blobs(ctx: &Ctx) {
+    const LENS: [usize; 12] = [1019, 1020, 1021, 2040, 4095, 4096, 4097, 8193, 65535, 65537, 300_000, 1_048_577];
+    let len = LENS[ctx.pick("len", LENS.len())];
+    let chunk = [crate::dev::Chunk::Full, crate::dev::Chunk::AlwaysHalf, crate::dev::Chunk::Alternate][ctx.pick("source-reads", 3)];
+    let p = Program { guid: "g".into(), ops: vec![Op::Blob(pattern(len as u64, len)), Op::Image(image(1, true, len, 6)), Op::Blob(pattern(7, 9))], ..Default::default() };
+    ctx.describe(|| format!("{} [payload sources read with {chunk:?}]", describe(&p)));
+    if let Some(w) = write_valid_opts(ctx, &p, P, &ExecOpts { src_chunk: chunk, ctx: None }) {
+        if spec_check(ctx, &p, &w) {
+            ctx.nontrivial();
+        }
+    }
 }
 
 /// extension programs: all sequences of <= 3 registration attempts over 2 prefixes x 2 URLs,
 /// followed by a cloud using an attribute of the first prefix (when registered)
 pub fn ext(ctx: &Ctx) {
+    let p = ext_program(ctx);
+    run(ctx, &p);
+}
+
+pub fn ext_program(ctx: &Ctx) -> Program {
     let n = ctx.pick("registrations", 4);
     let mut ops = Vec::new();
     for _ in 0..n {
@@ -113,8 +139,7 @@ pub fn ext(ctx: &Ctx) {
         proto.push(crate::cat::ext_rec("ext", "attr", e57spec::model::Ty::Int { min: 0, max: 9 }));
     }
     ops.push(Op::Cloud(cloud(proto, 2, 3)));
-    let p = Program { guid: "g".into(), ops, ..Default::default() };
-    run(ctx, &p);
+    Program { guid: "g".into(), ops, ..Default::default() }
 }
 
 /// metadata-rich files: every catalogue string (non-ASCII, astral, markup characters) in every
